@@ -1065,6 +1065,17 @@ pub fn families(prop: &str, tier: Tier) -> Vec<Cfg> {
             d.max_conns = 2;
             d.max_reqs = 10;
             d.dev = 0;
+            // a broker that acknowledges a waiting identifier with the wrong kind of packet
+            let mut f = Cfg::base("C18-acknowledgement-of-the-wrong-kind");
+            f.props = vec!["C18", "C06"];
+            f.ops = vec![OpK::Pub1, OpK::Pub2, OpK::Sub, OpK::Unsub, OpK::Poll];
+            f.io = IoMenu::benign();
+            f.broker.wrong_kind_acks = true;
+            f.broker.receive_max = vec![Some(2)];
+            f.max_ops = if q { 6 } else { 7 };
+            f.max_conns = 1;
+            f.max_reqs = 3;
+            f.dev = 1;
             // SUBACK / UNSUBACK with one reason code per filter: any refused filter is a rejection
             let mut e = Cfg::base("C18-per-filter-reason-codes");
             e.must_reach = vec!["SUBACK/UNSUBACK mixing refused and granted filters"];
@@ -1077,7 +1088,7 @@ pub fn families(prop: &str, tier: Tier) -> Vec<Cfg> {
             e.max_conns = 2;
             e.max_reqs = 3;
             e.dev = 0;
-            vec![a, b, c, d, e]
+            vec![a, b, c, d, e, f]
         }
         _ => vec![],
     }
